@@ -6,6 +6,7 @@ import TFV.Generated.Src.random_sample
 import TFV.Generated.Src.random_weighted_sample
 import TFV.Model.Select
 import TFV.Lemmas.Src.Sampling
+import TFV.Properties.Select
 
 namespace TFV.SrcTie
 open TFV.Generated.Src
@@ -42,5 +43,21 @@ theorem C11_src_random_weighted_sample_repl (w cum rolls : List Int) (q : Nat) (
     (hc : cum ≠ []) (h : Select.sampleRepl (candidates cum rolls) q = some r) :
     random_weighted_sample w (q : Int) true cum rolls = some (r.map Int.ofNat) :=
   src_random_weighted_sample_repl w cum rolls q r hc h
+
+/-! ### the C11 statements re-stated on the translated kernels -/
+
+/-- the translated `sattolo_shuffle` returns a permutation of its input -/
+theorem C11_src_sattolo_perm (arr : List Int) (js : List Nat) (hok : Select.sattoloOk (arr.length - 1) js = true) :
+    ∃ r, sattolo_shuffle arr (js.map Int.ofNat) = some r ∧ r.Perm arr :=
+  ⟨_, C11_src_sattolo_shuffle arr js hok, Select.C11_sattolo_perm arr js⟩
+
+/-- the translated `random_sample(replace=False)`: `quantity` distinct indices below `range_size`, each one of
+    the draws, with every array access in range -/
+theorem C11_src_random_sample_distinct (rs : Int) (q n : Nat) (ns r : List Nat)
+    (hd : ∀ d ∈ ns, d < n) (h : Select.sampleNoRepl ns q [] = some r) :
+    random_sample rs (q : Int) false (ns.map Int.ofNat) = some (r.map Int.ofNat) ∧
+    r.length = q ∧ r.Nodup ∧ (∀ x ∈ r, x < n) :=
+  ⟨C11_src_random_sample_norepl rs q ns r h, (Select.C11_sampleNoRepl ns q n r hd h).1,
+   (Select.C11_sampleNoRepl ns q n r hd h).2.1, (Select.C11_sampleNoRepl ns q n r hd h).2.2.1⟩
 
 end TFV.SrcTie
